@@ -14,6 +14,7 @@ const Enabled = true
 // Simulator is implemented by the external deterministic simulator.
 type Simulator interface {
 	Fork() uint64
+	ForkNamed(label string) uint64
 	Start(tok uint64)
 	Enter(label string)
 	Exit()
@@ -43,6 +44,14 @@ func get() Simulator {
 func Fork() uint64 {
 	if s := get(); s != nil {
 		return s.Fork()
+	}
+	return 0
+}
+
+// ForkNamed is Fork for a goroutine that is identified by content rather than by position.
+func ForkNamed(label string) uint64 {
+	if s := get(); s != nil {
+		return s.ForkNamed(label)
 	}
 	return 0
 }
